@@ -17,6 +17,7 @@ def shapes : List (String × String × List Str) :=
    ("ValueLessThan", "failure", []), ("ValueAtMost", "failure", []),
    ("ValueGreaterThan", "failure", []), ("ValueAtLeast", "failure", []),
    ("ValueBetween", "failure_inclusive", []), ("ValueBetween", "failure_exclusive", []),
+   ("MapEqual", "unequal", ["labels".toList, "last_label".toList]),
    ("ValuesEqual", "unequal", ["labels".toList, "last_label".toList]),
    ("UnisEqual", "unequal", ["labels".toList, "last_label".toList]),
    ("NotDuplicated", "failure", ["position".toList, "container_label".toList]),
